@@ -145,6 +145,62 @@ def dscript(hist):
     return ";".join("%d:%s" % (t, ",".join(("%d=%d" % (k, v)) if op == "set" else ("-%d" % k) for op, k, v in hist[t])) for t in sorted(hist))
 
 
+INV = -888888
+
+
+def two_dict_scenario(rng, s, keys, horizon, hist1, pid0):
+    """map_ over two multiplexed dictionaries with differing key sets: one child per key of the UNION; an element missing
+    on one side is an input without a value.  The mapped function starts with a node that needs both sides."""
+    hist2 = dict_history(rng, keys, horizon, maxops=3)
+    first = rng.choice(["sum2", "lsum"])
+    fnodes = [(10, first, {}, ["a0", "a1"])]
+    prev, nid = 10, 11
+    for _ in range(rng.randint(0, 2)):
+        fnodes.append((nid, rng.choice(["pass", "add", "acc", "count", "delay"]), {"k": rng.randint(1, 2)}, [prev]))
+        prev, nid = nid, nid + 1
+    fout = prev
+    lines = ["scn map2d%d" % s, "opt start=1 end=%d" % (horizon + 1), "graph g0 nin=2"] + [fn_stmt(n) for n in fnodes] + ["out %d" % fout, "endgraph",
+             "graph root", "n 1 dsrc script=" + dscript(hist1), "n 2 dsrc script=" + (dscript(hist2) or "99:1=1"),
+             "n 3 map g=0 in=1,2 dicts=2", "n 4 drec in=3", "endgraph", "run"]
+    # presence of each key on each side over time
+    ips, prs = [], []
+    for k in keys:
+        ev = []   # (t, side, op, v)
+        for side, h in ((0, hist1), (1, hist2)):
+            for t in sorted(h):
+                for op, kk, v in h[t]:
+                    if kk == k:
+                        ev.append((t, side, op, v))
+        ev.sort()
+        present = [False, False]
+        cur = None
+        for t in sorted({e[0] for e in ev}):
+            before = present[0] or present[1]
+            todays = [e for e in ev if e[0] == t]
+            for _, side, op, v in todays:
+                present[side] = (op == "set")
+            after = present[0] or present[1]
+            if not before and after:
+                cur = {"a": t, "s": [[], []]}
+            if cur is not None:
+                for _, side, op, v in todays:
+                    cur["s"][side].append([t, v if op == "set" else INV])
+            if before and not after and cur is not None:
+                ips.append((k, cur["a"], t, cur["s"]))
+                cur = None
+        if cur is not None:
+            ips.append((k, cur["a"], horizon + 1, cur["s"]))
+    out = []
+    for k, a, r, streams in ips:
+        # the removal that ends the interval is not an input event of the run-alone function
+        s0 = [x for x in streams[0] if x[0] < r]
+        s1 = [x for x in streams[1] if x[0] < r]
+        p = flat_program(pid0 + len(prs), fnodes, fout, s0, k, s1, a, r)
+        prs.append(p)
+        out.append((k, a, r, p))
+    return "\n".join(lines), out, prs
+
+
 def check_c10(chk, rng):
     quick = chk.tier == "quick"
     nscn = 160 if quick else 2500
@@ -156,6 +212,14 @@ def check_c10(chk, rng):
         horizon = 12 if big else rng.choice([5, 6, 7])
         hist = dict_history(rng, keys, horizon, maxops=6 if big else 3)
         if not hist:
+            continue
+        two_dicts = rng.random() < 0.3
+        if two_dicts:
+            scn, ips, prs = two_dict_scenario(rng, s, keys, horizon, hist, pid)
+            pid += len(prs)
+            progs += prs
+            scns.append(scn)
+            metas.append((hist, ips, horizon))
             continue
         keyed = rng.random() < 0.4
         bcast = rng.random() < 0.4
@@ -281,12 +345,14 @@ def check_c12(chk, rng):
         has_default = rng.random() < 0.3
         reload = rng.random() < 0.3
         unmatched = (not has_default) and rng.random() < 0.12
-        keyvals = list(range(1, nb + 1)) + ([7] if (has_default or unmatched) else [])
+        # with a default branch several different unmatched keys are all served by it: each change of key is still a
+        # new selection (fresh instance), although the branch definition stays the same
+        keyvals = list(range(1, nb + 1)) + ([7, 8, 8] if has_default else [7] if unmatched else [])
         # key history: rapid flips, repeats, flip in the same cycle as an input tick, return to an earlier key
         kticks = []
         for t in sorted(rng.sample(range(1, horizon + 1), rng.randint(1, min(5, horizon)))):
             prev = kticks[-1][1] if kticks else None
-            pool = [k for k in keyvals if k != 7 or has_default or (unmatched and t > horizon // 2)]
+            pool = [k for k in keyvals if k not in (7, 8) or has_default or (unmatched and t > horizon // 2)]
             if prev is not None and rng.random() < 0.25:
                 kticks.append([t, prev])
             else:
@@ -308,10 +374,10 @@ def check_c12(chk, rng):
         # selection intervals
         ivs, cur, fail_at = [], None, None
         for t, k in kticks:
-            if k == 7 and not has_default:
+            if k in (7, 8) and not has_default:
                 fail_at = t
                 break
-            b = (k - 1) if k != 7 else (nb - 1)
+            b = (k - 1) if k not in (7, 8) else (nb - 1)
             if cur is None or reload or k != cur[1]:
                 if cur is not None:
                     ivs.append((cur[0], t, cur[2]))
